@@ -50,7 +50,7 @@ def seq_spec(prop, sweep, quick, thorough, rule, after_op=None, tier_kw=None, pr
             rule,
             "sequential-history",
             components_stub=STUBS,
-            fault_kinds=["op_reopen"],
+            fault_kinds=["op_reopen", "op_clear", "recovered_crash_states", "abandoned_requests"],
             assumptions=ASSUME,
             **kw
         )
@@ -85,7 +85,7 @@ register(
         "seeded histories, then (a) quiescent token chains for every webentity x page sizes x crawled-only and (b) a pager whose successive calls are separated by seeded page-inserting requests; non-trivial when a chain needs >= 3 calls or writes happened between calls; distinct = distinct event digests",
         "sequential-history + interleaved pager",
         components_stub=STUBS,
-        fault_kinds=["op_reopen", "ops_between_calls"],
+        fault_kinds=["op_reopen", "op_clear", "ops_between_calls"],
         assumptions=ASSUME,
     )
 )
